@@ -78,6 +78,33 @@ def run(ctx):
                 ctx.ob(R3, f'bootstrap·{var}→fetch_max<{width}>', bool(fm),
                        f'arm `{var}` (block {arms[var]}) must advance the {width} id generator with fetch_max',
                        [site(b, c.bb) for c in fm])
+            # R6: every replayed record takes effect on every path of its arm (no record is skipped conditionally)
+            R6 = 'C03-R6'
+            ctx.rule(R6, 'replay applies every record unconditionally: on every non-error path through the arm of Add* the record '
+                         'is registered for opening (HashMap::insert), of Delete* it is unregistered (HashMap::remove), of '
+                         'CreateTable/DropTable it is applied to the catalog and kept for the compacted manifest; a record that is '
+                         'skipped under a condition (e.g. "table not known yet") is acknowledged data silently dropped, because '
+                         'the rewritten manifest need not keep the order of the live log')
+            nxt = {c.bb for c in b.calls if c.bb is not None and re.search(r'Iterator::next$', c.fn or '')}
+            MUST = {'AddRowSet': [r'HashMap::<.*>::insert$'], 'AddDV': [r'HashMap::<.*>::insert$'],
+                    'DeleteRowSet': [r'HashMap::<.*>::remove$'], 'DeleteDV': [r'HashMap::<.*>::remove$'],
+                    'CreateTable': [r'apply_create_table$', r'Vec::<.*>::push$'],
+                    'DropTable': [r'apply_drop_table$', r'Vec::<.*>::push$']}
+            errs = b.error_exit_blocks()
+            for var, pats in MUST.items():
+                if not ctx.anchor(R6, f'arm {var}', var in arms):
+                    continue
+                others = {tgt for vv, tgt in arms.items() if vv != var}
+                for pat in pats:
+                    sites_ = {c.bb for c in b.calls if re.search(pat, c.name or c.fn or '')}
+                    region = b.reachable_from([arms[var]], avoid=others | {i} | errs | sites_)
+                    # leaving the arm = reaching the loop head again (the switch block's predecessors' poll) or the code after the loop
+                    escaped = sorted(x for x in region if x in nxt)
+                    ctx.ob(R6, f'bootstrap·{var}·always·{pat.split("::")[-1].rstrip("$")}', bool(sites_) and not escaped,
+                           f'arm `{var}` (block {arms[var]}): every path back to the replay loop must pass `{pat}` '
+                           f'(sites {sorted(sites_)[:6]}); reaches the next iteration without it through {escaped}',
+                           [site(b, arms[var])],
+                           what=f'manifest replay skips a {var} record on some path: a change that was acknowledged is not restored on reopen')
             # all variants have an arm or an explicit no-op (the match is exhaustive by the compiler); report coverage
             ctx.extra['manifest_op_arms'] = sorted(arms)
 
